@@ -14,7 +14,8 @@ RULE = ('random finite MPS (L 2-6, all site kinds and conserve options, random s
         '(incl. fermionic ones, products, per-site lists), site ranges and options, and compared with dense vectors and '
         'dense operators built by explicit kron with Jordan-Wigner strings; each sampled measurement is compared with the Born '
         'amplitude of the returned outcome. non-trivial = entangled state; distinct = (function, options, site kind, L)'
-        ' Also: hermitian=True shortcut of correlation_function, overlap(ignore_form=True), MPSEnvironment.correlation_function with bra != ket and norms != 1, term lists whose terms start on different sites, Renyi index / max_range of mutinf_two_site.')
+        ' Also: hermitian=True shortcut of correlation_function, overlap(ignore_form=True), MPSEnvironment.correlation_function with bra != ket and norms != 1, term lists whose terms start on different sites, Renyi index / max_range of mutinf_two_site.'
+        ' Round 5: one-site fermionic operators by name in MPSEnvironment.expectation_value with bra and ket of different parity; charge statistics on extracted segments.')
 ASSUMPTIONS = ['single-site operator matrices of the Site objects are taken as data (their correctness is C12)',
                'the MPS denotes the dense state (C07)']
 ANCHORS = {'tenpy/networks/mps.py': ['*']}
